@@ -681,6 +681,11 @@ func (a *Assembler) AssembleWithContext(netFlow gopacket.Flow, t *layers.TCP, ac
 	}
 
 	seq, ack, bytes := Sequence(t.Seq), Sequence(t.Ack), t.Payload
+	if t.SYN && half.nextSeq != invalidSequence {
+		// A SYN occupies one sequence number: the payload of a retransmitted
+		// SYN starts one past t.Seq, as for the first SYN below.
+		seq = seq.Add(1)
+	}
 	if t.ACK {
 		half.ackSeq = ack
 	}
